@@ -183,7 +183,39 @@ def multi_chrom(res, scratch, tier):
             lines = g.lines()
             t = "".join(lines[i] + "\n" for i in list(range(len(lines)))[::-1])
             judge_run(res, scratch, t, chains, ",".join(names), None, False, "multi-chromosome, reversed line order")
-    res.sample({"chromosomes": ["chr1", "chr2", "chrX"], "chain_chr1": firsts[1], "requests": ["chr1", "chr2,chr1", "chrX,chr1,chr2"]})
+    # no --chromosome_order: the documented default chr1, ..., chr22, chrX, chrY, chrM applies (and requires exactly these)
+    names = [f"chr{i}" for i in range(1, 23)] + ["chrX", "chrY", "chrM"]
+    comps = []
+    for i, nm in enumerate(names):
+        if nm in ("chr1", "chrX"):
+            comps.append(gen.Chain(["snp"] if nm == "chr1" else ["deletion"], chrom=nm, id_base=200 + 20 * i, hap=f"h{i}#1#c", decl="alt"))
+        else:
+            o = OneNode()
+            o.chrom = nm
+            o.g = rgfa.Graph()
+            o.g.add_seg(f"m{i}", "ACGTAC", [("LN", "i", "6"), ("SN", "Z", nm), ("SO", "i", "0"), ("SR", "i", "0")])
+            o.order = [("s", f"m{i}")]
+            comps.append(o)
+    g25 = gen.merge_graphs([c.g for c in comps[::-1]])  # file order is the reverse of the documented order
+    run = oc.run_order(scratch, g25.text(), "", by_chrom=False)
+    res.evaluations += 1
+    res.count("default_chromosome_order_runs")
+    case25 = {"gfa": g25.text(), "chromosome_order": "", "root": None, "flip": False, "by_chrom": False, "hashseed": 0}
+    if run.outcome.kind != "ok" or run.gfa("complete") is None:
+        res.fail(f"C06/default-order-failed:{run.outcome.sig()}", f"default chromosome order on a graph with exactly chr1..chr22,chrX,chrY,chrM: {run.outcome.brief()}", case25)
+    else:
+        tags = oc.bo_no_map(run.gfa("complete"))
+        prev = None
+        for c in comps:
+            bos = [tags[n][0] for n in c.g.segs if tags.get(n, (None,))[0] is not None]
+            if len(bos) != len(c.g.segs):
+                res.fail("C06/default-order-untagged", f"default chromosome order: {c.chrom} has untagged nodes", case25)
+                break
+            if prev is not None and not prev[1] < min(bos):
+                res.fail("C06/default-chromosome-order", f"default chromosome order: the BO range of {c.chrom} {(min(bos), max(bos))} does not follow that of {prev[0]} (..{prev[1]}); documented order chr1..chr22, chrX, chrY, chrM", case25)
+                break
+            prev = (c.chrom, max(bos))
+    res.sample({"chromosomes": ["chr1", "chr2", "chrX"], "chain_chr1": firsts[1], "requests": ["chr1", "chr2,chr1", "chrX,chr1,chr2", "(default order on 25 chromosomes)"]})
 
 
 def run_shard(spec, tier, scratch):
@@ -208,6 +240,9 @@ def run_shard(spec, tier, scratch):
 def replay(case, scratch):
     res = fw.ShardResult()
     g = rgfa.Graph.parse(case["gfa"])
+    if case["chromosome_order"] == "":
+        multi_chrom(res, scratch, "quick")
+        return [f for f in res.failures if f["case"].get("chromosome_order") == ""]
     # rebuild expectations from the graph itself (brute-force model), per chromosome
     chains = []
     adj = g.adjacency()
